@@ -24,7 +24,7 @@ OPS = {'=': ['=', '==', 'eq'], '!=': ['!=', '<>', 'ne'], '<': ['<', 'lt'], '>': 
 
 
 def bounds(tier):
-    return {'zones': ZONES, 'base_dates': len(BASES), 'precisions': 4, 'relative_offsets': '-7..+1'}
+    return {'zones': ZONES if tier == 'quick' else ZONES_T, 'base_dates': len(BASES) if tier == 'quick' else len(BASES) + len(month_ends()) + 4, 'precisions': 4, 'relative_offsets': '-7..+1'}
 
 
 def literals(base, tier):
